@@ -124,7 +124,9 @@ def ref_stream(ctx):
                 want = expected(e, cfg, batches)
                 s.case((e.name, repr(cfg), repr(batches)), k >= 1, sample={"class": e.name, "cfg": cfg, "updates": k + 1})
                 s.count("class:" + e.name)
-                if not winlib.finite(want):
+                # non-finite references: only the calibration reference (x/0 where the windowed class
+                # clamps the denominator at eps) is undefined; NaN results (all-zero weights) are compared
+                if not winlib.finite(want) and (e.name == "WindowedWeightedCalibration" or not winlib.finite_or_nan(want)):
                     s.count("reference-undefined:" + e.name)        # e.g. calibration with a zero target sum: x/0
                     continue
                 d = close(want, got, e.tol)
